@@ -32,7 +32,10 @@ Definition ip_compare (a b : ip) : Z :=
    [clist]: nil pointer (attribute absent) vs. pointer to a (possibly empty) list.
    [pathid]: PathIdentifier. [other]: every remaining attribute that only Compare reads
    (AS_PATH contents, communities, large communities, aggregator, atomic aggregate, unknown
-   attributes), abstracted to one number; equal AS_PATH contents imply equal ASPathLen. *)
+   attributes), abstracted to one number; equal AS_PATH contents imply equal ASPathLen.
+   Select/ECMP do not read [other] - in particular not the AS_PATH contents (neighbour AS): the
+   harness varies them (and OTC, BMPPostPolicy, LTime, HiddenReason, RedistributedFrom, which are
+   not in the record at all), so any dependence of the implementation on them is a mismatch. *)
 Record bgp_path := mkbgp {
   lp : N;            (* BGPPathA.LocalPref *)
   aslen : N;         (* ASPathLen *)
